@@ -118,7 +118,7 @@ func routingScenario(s *Sim, params map[string]string) {
 	client := &kafka.Client{Addr: kafka.TCP(boot...), Transport: tr, Timeout: 5 * time.Second}
 
 	restarts := false  // some broker has been restarted in this run
-	var downAt []time.Duration // instants at which a broker went down
+	var downAt []time.Duration // for each broker outage: the instant it began and the instant it ended (pairs)
 	elections := false // some partition has been without a leader in this run
 	// metadata snapshots delivered to the client (from the journal, at the end)
 	var moves []time.Duration
@@ -168,9 +168,9 @@ func routingScenario(s *Sim, params map[string]string) {
 					break
 				}
 				restarts = true
-				downAt = append(downAt, s.Now())
 				cl.SetBrokerUp(b, false)
 				down := time.Duration(t.Range("fault", 20, 600)) * time.Millisecond
+				downAt = append(downAt, s.Now(), s.Now()+down)
 				s.After(down, "broker-back", func() {
 					if drawTable != nil {
 						drawTable(b, "fault")
@@ -478,8 +478,10 @@ func routingOracle(s *Sim, cl *Cluster, ttl, maxLat time.Duration, moves, downAt
 			// then late by a dial, a back-off and possibly a dial time-out)
 			disturbed := false
 			if p := leaderOf(); p != nil {
-				for _, d := range downAt {
-					if d >= p.LeaderSince-ttl && d <= r.At {
+				for i := 0; i+1 < len(downAt); i += 2 {
+					// the outage [from, to] (and one TTL after it, for the
+					// reconnect) overlaps the period in question
+					if from, to := downAt[i], downAt[i+1]+ttl; from <= r.At && to >= p.LeaderSince-ttl {
 						disturbed = true
 					}
 				}
